@@ -1296,11 +1296,16 @@ static void CodeALIGN(Word Index) {
             AlignFill = EvalStrIntExpressionWithFlags(&ArgStr[2], Int8, &OK, &Flags);
         }
         if (OK) {
-            AlignValue = EvalStrIntExpression(&ArgStr[1], Int16, &OK);
+            tSymbolFlags AlignFlags = eSymbolFlag_None;
+
+            AlignValue = EvalStrIntExpressionWithFlags(&ArgStr[1], Int16, &OK, &AlignFlags);
+            Flags |= AlignFlags;
         }
         if (OK) {
             if (mFirstPassUnknown(Flags)) {
                 WrError(ErrNum_FirstPassCalc);
+            } else if (!AlignValue) {
+                WrStrErrorPos(ErrNum_UnderRange, &ArgStr[1]);
             } else {
                 NewPC = EProgCounter() + AlignValue - 1;
                 NewPC -= NewPC % AlignValue;
